@@ -64,6 +64,8 @@ def main():
     a = ap.parse_args()
     seed = int(os.environ.get('VERIF_SEED', '0') or 0)
     if a.cmd == 'prop':
+        import faulthandler
+        faulthandler.dump_traceback_later(1500, repeat=True, file=sys.stderr)     # diagnostic only: where a run is if it takes this long
         from . import props
         sys.exit(props.run_property(a.target, a.tier, seed, verbose=a.v, only=a.only))
     if a.cmd == 'selftest':
